@@ -330,6 +330,21 @@ Definition py_dict (v : pyval) : res pyval :=
                      end) l (Ok []) ;;
   Ok (VDict kv).
 
+(** [dict(zip(a, (f(o) for o in b)))]: the generator is consumed lazily by zip, one pair at a time -- the key is
+    taken from [a], then [f] runs on the next element of [b], then the pair is inserted (hashing the key).  So an
+    unhashable key at position i raises before [f] is run on the elements after i. *)
+Fixpoint dict_zip_lazy_l (f : pyval -> res pyval) (ks vs : list pyval) (acc : list (pyval * pyval))
+  : res (list (pyval * pyval)) :=
+  match ks, vs with
+  | k :: ks', v :: vs' =>
+      x <- f v ;;
+      if py_hashable k then dict_zip_lazy_l f ks' vs' (dict_set acc k x) else Raise EType
+  | _, _ => Ok acc
+  end.
+Definition dict_zip_lazy (f : pyval -> res pyval) (a b : pyval) : res pyval :=
+  vs <- as_iter b ;; ks <- as_iter a ;; kv <- dict_zip_lazy_l f ks vs [] ;; Ok (VDict kv).
+
+
 Fixpoint index_of (l : list pyval) (x : pyval) (i : Z) : option Z :=
   match l with
   | [] => None
@@ -595,6 +610,17 @@ Lemma mapM_ext {A B} (f g : A -> res B) (l : list A) :
 Proof.
   intros H. induction l as [|x t IH]; cbn; [reflexivity|].
   rewrite H, IH. reflexivity.
+Qed.
+
+Lemma dict_zip_lazy_ext f g a b : (forall x, f x = g x) -> dict_zip_lazy f a b = dict_zip_lazy g a b.
+Proof.
+  intros H. unfold dict_zip_lazy. apply bind_ext; [reflexivity|]. intros vs.
+  apply bind_ext; [reflexivity|]. intros ks.
+  assert (E : forall acc, dict_zip_lazy_l f ks vs acc = dict_zip_lazy_l g ks vs acc).
+  { revert vs. induction ks as [|k ks IH]; intros vs acc; [reflexivity|].
+    destruct vs as [|v vs]; [reflexivity|]. cbn. rewrite H.
+    apply bind_ext; [reflexivity|]. intros x. destruct (py_hashable k); [apply IH | reflexivity]. }
+  rewrite E. reflexivity.
 Qed.
 
 Lemma comp1_ext f g it : (forall x, f x = g x) -> comp1 f it = comp1 g it.
